@@ -40,6 +40,7 @@ fn blocks_of(srv: &Value) -> rp::ScBlocks {
         b.core_opt = gu(x, "core_opt", 2) as u8;
         b.with_security = x.get("with_security").and_then(|v| v.as_bool()).unwrap_or(true);
         if let Some(o) = x.get("order").and_then(|v| v.as_array()) { b.order = o.iter().filter_map(|s| s.as_str().map(|s| s.to_string())).collect(); }
+        b.max_pdu = gu(x, "max_pdu", 0) as u32;
     }
     b
 }
@@ -292,12 +293,13 @@ fn run_plan(plan: &Value, tr: &mut Tracer) {
     let mut rng_share = b4(srv.get("share"), [0xea, 3, 1, 0]);
     for a in 0..acts {
         if a > 0 {
-            if !srv_send_read(&mut io, &mut client, tr, &rp::deactivate_all(rng_share), "DeactivateAll", 0) { return; }
+            if !srv_send_read(&mut io, &mut client, tr, &rp::deactivate_all_src(rng_share, &rp::source_descriptor((gu(&srv, "srcv", 0) + a) as u8)), "DeactivateAll", 0) { return; }
             // xrdp / FreeRDP style servers keep one constant share id over all activations of a session
             if !gb(&srv, "same_share") { rng_share[0] = rng_share[0].wrapping_add(1); }
         }
         let capv = gu(&srv, "capv", 0) as u8;
-        if !srv_send_read(&mut io, &mut client, tr, &rp::demand_active(rng_share, &rp::server_caps(capv)), "DemandActive", 5) { return; }
+        // the source descriptor is free text: another variant at every activation
+        if !srv_send_read(&mut io, &mut client, tr, &rp::demand_active_src(rng_share, &rp::server_caps(capv), &rp::source_descriptor((gu(&srv, "srcv", 0) + a) as u8)), "DemandActive", 5) { return; }
         if !srv_send_read(&mut io, &mut client, tr, &rp::synchronize(rng_share, 1002), "Sync", 0) { return; }
         if !srv_send_read(&mut io, &mut client, tr, &rp::control(rng_share, 4, 0, 0), "Coop", 0) { return; }
         if !srv_send_read(&mut io, &mut client, tr, &rp::control(rng_share, 2, 1004, 1002), "Granted", 0) { return; }
